@@ -11,9 +11,17 @@
         value of Decoder.offset before the first read (0 for a fresh decoder).
         Output: one line `#i c <name> <args> @<offset>` per decoded command
         (offset = start + decoder offset), then `#i e <eof|ueof|bad|parse>`.
+    decx <i> <start> <preset> <bufsize> <frag> <fseed> <piece>...
+        a stream OUTSIDE the property's quantifier (not a sequence of canonical
+        multi-bulk commands: malformed, non-canonical, or containing inline
+        commands). Compared only as far as the property cares: the commands
+        decoded before the decoder stops (name, arguments), their offsets as
+        long as no inline command has been met in the stream (`@~` from the
+        first inline command on: how inline commands are counted is not C12's
+        business), and a final `#i e stop` whatever the error class.
     wa <i> <arg>...     proto.Writer.WriteArgs of the arguments
         <arg> = b:<hex> | s:<hex> | B:<byte>:<count> ([]byte) | i:<int> | u:<nat> | t | f | n
-              | F:<hex of the float's 'f',-1,64 text>
+              | F:<hex of the decimal text the writer chose for the float>
         Output: `#i w <bytes written>` then the result of decoding those bytes
         with a fresh decoder: `#i c <name> <args> @<offset>` or `#i e <err>`.
     en <i> <arg>...     client.Encode of the command as an array of bulks
@@ -98,7 +106,27 @@ def decodeBack (i : String) (bs : Bytes) : List String :=
     | .ok (c, off, rest) => [cmdLine i c off ++ (if rest.isEmpty then "" else s!" +{rest.length}")]
     | .error e => [s!"#{i} e {e.name}"]
 
+/-- Bool version of `typed`: the next value is not an inline command -/
+def typedB : Bytes → Bool
+  | [] => true
+  | b :: rest => if b = 10 then typedB rest else (b = 43 || b = 45 || b = 58 || b = 36 || b = 42)
+
+/-- the parser loop for out-of-quantifier streams, rendered coarsely (see `decx`) -/
+def loopX (i : String) (fuel start : Nat) : Nat → Bytes → Nat → Bool → List String
+  | 0, _, _, _ => [s!"#{i} e stop"]
+  | k + 1, inp, off, tainted =>
+    let t := tainted || !typedB inp
+    match decodeCmd fuel inp off with
+    | .error _ => [s!"#{i} e stop"]
+    | .ok (c, off', rest) =>
+      (if t then s!"#{i} c {render c.name} {renderList c.args} @~" else cmdLine i c (start + off'))
+        :: loopX i fuel start k rest off' t
+
 def handle : List String → Option (List String)
+  | "decx" :: i :: start :: pre :: _buf :: _frag :: _seed :: ps =>
+    match start.toNat?, pre.toNat?, pieces ps with
+    | some st, some pre, some inp => some (loopX i (inp.length + 1) st (inp.length + 1) inp pre false)
+    | _, _, _ => some ["bad-op"]
   | "dec" :: i :: start :: pre :: _buf :: _frag :: _seed :: ps =>
     match start.toNat?, pre.toNat?, pieces ps with
     | some st, some pre, some inp =>
